@@ -18,7 +18,9 @@
    operand (and the cmpxchg variant / low class of `new').  Derived from two seeded linear hashes of these
    coordinates (orthogonal-array style, so every value of a derived coordinate meets every value of each
    enumerated one): off, the middle-byte classes, the high class of `new'.  read/inc/dec have few vectors and
-   enumerate off and the middle class exhaustively.  K > 1 keeps the slice H % K = 0 of the product (quick tier).
+   enumerate off and the middle class exhaustively.  K > 1 keeps the slice H1 % K = 0 of the product (quick tier);
+   for K <= 5 the class coordinate with unit coefficient guarantees that every (op, w, ts, operand type), every
+   literal and -- through H1 \div K -- every offset is still hit, whatever the seed (checked again by the plugin).
 
    State graph: root -> 96 group states (op, w, ts) -> one state per vector; the invariant Emit prints every vector
    with its expected result as a flat tuple of integers (consumed by tools/props/c20.py and harness/d_uatomic.c). *)
@@ -136,7 +138,7 @@ Imm(opi, wi, ts) ==
                          [] OTHER  -> cls
        IN /\ (isCas \/ mv = 1)
           /\ (isCas /\ mv < 5) => (mlo = 1 /\ mhi = 1)
-          /\ (h1 \div 16) % K = 0
+          /\ (Seed + k + mlo + mhi + mv) % K = 0          \* K <= 5: every literal stays covered for every (op, w, ts)
           /\ vec' = MkVecI(OpNames[opi], w, w * (h1 % (MemSize \div w)), ts, L.ow, L.os,
                            L.v, IF isCas THEN Lits[L.nxt].v ELSE <<>>, old, s, k)
 
